@@ -180,6 +180,20 @@ def attempt(pid, ob, res, path, repo, root, seed, gen=None):
                 if fails:
                     found = True
                     rec["failing_input"] = fails[:5]
+            if not found and ob["name"].startswith("P11/"):
+                # take-and-deliver ordering: search for a failing schedule with two real goroutines
+                cw = None
+                for key, sub in (("Zip", "Zip2"), ("CombineLatest", "CombineLatest2"), ("WindowWhen", "WindowWhen"), ("BufferWhen", "BufferWhen")):
+                    if base.startswith(key):
+                        cw = sub
+                if cw:
+                    src = open(os.path.join(root, "witness", "concurrent_witness_test.go")).read()
+                    out, fails = run_overlay(repo, {"zz_rovc_cwitness_test.go": src}, "TestWitnessConcurrentOrder/" + cw + "$", timeout=120)
+                    rec["replay_kind"] = "concurrent-order witness %s: the operator driven from two goroutines, per-source order and completeness checked (bounded, timing-dependent)" % cw
+                    rec["replay_output"] = out[-6000:]
+                    if fails:
+                        found = True
+                        rec["failing_input"] = fails[:5]
             sub2 = OP_WITNESS2.get(base)
             if sub2 and not found:
                 src = open(os.path.join(root, "witness", "operator_witness_test.go")).read()
